@@ -186,6 +186,7 @@ class RepeatedNodeWrapper(MutableSequence[_M]):
     def __setitem__(self, index: int | slice, value: _M | Iterable[_M]) -> None:
         if isinstance(index, int):
             assert not isinstance(value, Iterable)
+            index = indexes.range_from_index(index, len(self._repeated.items)).start
             item = self._repeated.items[index]
             self._repeated.token_store.splice(value.detach(), item.first_token, item.last_token)
             value.reattach(self._repeated.token_store)
@@ -205,7 +206,7 @@ class RepeatedNodeWrapper(MutableSequence[_M]):
             self._repeated.items[indexes.slice_from_range(r)] = values
             for value in values:
                 value.reattach(self._repeated.token_store)
-            self._notify_splice(r.start, r.stop, values)
+            self._notify_splice(r.start, max(r.start, r.stop), values)
         else:
             if len(r) != len(values):
                 raise ValueError(f'attempt to assign sequence of size {len(values)} to extended slice of size {len(r)}')
@@ -217,6 +218,8 @@ class RepeatedNodeWrapper(MutableSequence[_M]):
             self._notify()
 
     def insert(self, index: int, value: _M) -> None:
+        if index < 0:
+            index = max(index + len(self._repeated.items), 0)
         index = min(index, len(self._repeated.items))
         self._insert_tokens(index, [value])
         value.reattach(self._repeated.token_store)
